@@ -149,7 +149,9 @@ class TableRow(Mapping[str, object]):
     def step(self) -> None:
         """Step the forloop forward."""
         self._index += 1
-        if self._col == self.ncols:
+        # A row ends after its last column, never before its first cell. Without
+        # the index check, `cols: 0` would put the first item in row 2.
+        if self._index and self._col == self.ncols:
             self._col = 1
             self._row += 1
         else:
